@@ -5,6 +5,7 @@ package main
 // analyses the executor needs.
 
 import (
+	"strconv"
 	"bytes"
 	"fmt"
 	"go/ast"
@@ -704,6 +705,28 @@ func (g *overlayGen) paramsFromNode(fi *funcInfo, node ast.Node, withResults boo
 			}
 		}
 		if types.Universe.Lookup(name) != nil {
+			continue
+		}
+		if strings.HasPrefix(name, "resultof_") && fi.decl != nil {
+			parts := strings.SplitN(strings.TrimPrefix(name, "resultof_"), "_", 2)
+			k, _ := strconv.Atoi(parts[0])
+			if len(parts) != 2 {
+				return nil, "", fmt.Errorf("bad result_of")
+			}
+			calls := collectCalls(fi.decl, parts[1])
+			if k < 1 || k > len(calls) {
+				return nil, "", fmt.Errorf("result_of: %d calls of %s, clause names call %d", len(calls), parts[1], k)
+			}
+			tv, ok := g.p.TypesInfo.Types[calls[k-1]]
+			if !ok || tv.Type == nil {
+				return nil, "", fmt.Errorf("result_of: no type for call %d of %s", k, parts[1])
+			}
+			if _, isTuple := tv.Type.(*types.Tuple); isTuple {
+				return nil, "", fmt.Errorf("result_of: call %d of %s has several results", k, parts[1])
+			}
+			lp := g.fset.Position(calls[k-1].Lparen)
+			params = append(params, ClauseParam{Kind: pkCallRes, Name: name, File: lp.Filename, Off: lp.Offset})
+			decl = append(decl, name+" "+types.TypeString(tv.Type, g.qual))
 			continue
 		}
 		if name == "rangeidx" {
@@ -1543,7 +1566,21 @@ func (eng *Engine) callWrites(ms *modSet, ne *Exec, fn *ssa.Function, cc *ssa.Ca
 			ms.heap[dn] = arrSort("Int", arrSort(ks, "Bool"))
 			ms.heap[ln] = arrSort("Int", "Int")
 		case "clear":
-			ms.all = true
+			switch u := cc.Args[0].Type().Underlying().(type) {
+			case *types.Map:
+				dn, _, ln, ks, _ := ne.mapArrs(u)
+				ms.heap[dn] = arrSort("Int", arrSort(ks, "Bool"))
+				ms.heap[ln] = arrSort("Int", "Int")
+			case *types.Slice:
+				if !isStructT(u.Elem()) && !isArrayT(u.Elem()) {
+					n, s := ne.memArr(u.Elem())
+					ms.heap[n] = s
+				} else {
+					ms.all = true
+				}
+			default:
+				ms.all = true
+			}
 		}
 		return
 	}
